@@ -263,6 +263,16 @@ func main() {
 				o.Sched = hg.Intn(12) == 0
 				o.Expire = hg.Intn(8) == 0
 				o.Implicit = hg.Intn(8) == 0 // the pattern given directly as the `when` value
+				if hg.Intn(10) == 0 {
+					// a property variable (the only key of its map) next to rules that name keys
+					for _, v := range hg.Map(1) {
+						if hg.Intn(2) == 0 {
+							v = "?v"
+						}
+						o.When = map[string]interface{}{[]string{"?p", "?k"}[hg.Intn(2)]: v}
+						break
+					}
+				}
 			case k < 12:
 				o.Op = "remRule"
 			case k < 14:
@@ -491,6 +501,10 @@ func directed(r *rep.Report) {
 			[]map[string]interface{}{P("a", []interface{}{"s1", 1})}},
 		{"implicit-when", []op{{Op: "addRule", Loc: "child", Id: "r1", When: P("wants", "?x"), Implicit: true}, {Op: "addRule", Loc: "child", Id: "r2", When: P("wants", "tea", "n", "?n"), Implicit: true}},
 			[]map[string]interface{}{P("wants", "beer"), P("wants", "tea", "n", 2)}},
+		{"property-variable-next-to-constant-key", []op{{Op: "addRule", Loc: "child", Id: "r1", When: P("a", 2)}, {Op: "addRule", Loc: "child", Id: "r2", When: P("?p", 1)}, {Op: "addRule", Loc: "child", Id: "r3", When: P("?k", "?v")}},
+			[]map[string]interface{}{P("a", 1), P("a", 2), P("b", 1)}},
+		{"property-variable-after-removal", []op{{Op: "addRule", Loc: "child", Id: "r1", When: P("a", "x")}, {Op: "remRule", Loc: "child", Id: "r1"}, {Op: "addRule", Loc: "child", Id: "r2", When: P("?k", "b")}},
+			[]map[string]interface{}{P("a", "b")}},
 		{"optional-variable", []op{{Op: "addRule", Loc: "child", Id: "r1", When: P("a", "s1", "b", "??y")}},
 			[]map[string]interface{}{P("a", "s1"), P("a", "s1", "b", "here")}},
 		{"mixed-array", []op{{Op: "addRule", Loc: "child", Id: "r1", When: P("b", []interface{}{"", "?x", "s2"})}},
